@@ -420,6 +420,7 @@ impl Ctx {
           };
           let mut runner = TestRunner::new(cfg);
           let rec = RefCell::new(Rec::new());
+          let first_violation: RefCell<Option<(C, Violation)>> = RefCell::new(None);
           let res = runner.run(&strat, |case| {
             if stop.load(Ordering::Relaxed) && !rec.borrow().frozen {
               // another worker already failed: finish quickly (counted cases stay counted)
@@ -442,6 +443,9 @@ impl Ctx {
                 } else {
                   r.frozen = true; // stop counting: proptest now re-runs the closure to shrink
                   stop.store(true, Ordering::Relaxed);
+                  if first_violation.borrow().is_none() {
+                    *first_violation.borrow_mut() = Some((case.clone(), v.clone()));
+                  }
                   Err(TestCaseError::fail(format!("{}/{}: {}", v.check, v.kind, v.detail)))
                 }
               }
@@ -454,12 +458,27 @@ impl Ctx {
               // re-run the oracle on the minimal case to get its own violation record
               let mut scratch = Rec::new();
               scratch.frozen = true;
+              let mut reported = minimal.clone();
               let v = match catch(|| check(&minimal, &mut scratch)) {
                 Ok(Err(v)) => v,
-                Ok(Ok(())) => Violation::new("harness", "flaky", "minimal case passed when re-run".to_string()),
+                Ok(Ok(())) => {
+                  // the value proptest handed back does not fail (can happen with flat-mapped
+                  // strategies when shrinking is cut short): fall back to the first failing case
+                  let orig = first_violation.borrow().clone();
+                  match orig {
+                    Some((c0, v0)) => match catch(|| check(&c0, &mut scratch)) {
+                      Ok(Err(v)) => {
+                        reported = c0;
+                        v
+                      }
+                      _ => Violation::new("harness", "flaky", format!("a case failed once and passed when re-run; first failure was {}/{}: {}", v0.check, v0.kind, v0.detail)),
+                    },
+                    None => Violation::new("harness", "flaky", "minimal case passed when re-run".to_string()),
+                  }
+                }
                 Err(p) => Violation::new("harness", "harness_panic", p),
               };
-              let cj = serde_json::to_value(&minimal).unwrap_or(json!(format!("{:?}", minimal)));
+              let cj = serde_json::to_value(&reported).unwrap_or(json!(format!("{:?}", reported)));
               Some((cj, v))
             }
             Err(TestError::Abort(r)) => Some((Value::Null, Violation::new("harness", "abort", format!("proptest aborted: {}", r)))),
